@@ -38,6 +38,10 @@ theorem keep_step (P : Params K) (items : List (Item K)) (lineW : K) (tol : Opti
     (hs : (lb.W, lb.Y, lb.Z) = pre items b) (hn : n ∈ lb.act) (hat : AtPrev P items n prev)
     (hnf : isForced P it = false)
     (hY : (afterSums P items prev).2.1 ≤ (pre items b).2.1) (hZ : (afterSums P items prev).2.2 ≤ (pre items b).2.2)
+    (hsn : adjRatio P lineW it (pre items b).1 (pre items b).2.1 (pre items b).2.2
+        (afterSums P items prev).1 (afterSums P items prev).2.1 (afterSums P items prev).2.2 =
+      adjRatio0 P lineW it (pre items b).1 (pre items b).2.1 (pre items b).2.2
+        (afterSums P items prev).1 (afterSums P items prev).2.1 (afterSums P items prev).2.2)
     (hnt : ¬ lineW < ((pre items b).1 - (afterSums P items prev).1) -
       ((pre items b).2.2 - (afterSums P items prev).2.2)) :
     n ∈ (mainLoop P items lineW tol b it rest lb).act := by
@@ -57,7 +61,8 @@ theorem keep_step (P : Params K) (items : List (Item K)) (lineW : K) (tol : Opti
   | true =>
     exfalso
     have := deact_imp (mlCx P items lineW tol b it lb) n hnf (by simp only [mlCx]; rw [hy, hY']; exact hY)
-      (by simp only [mlCx]; rw [hz, hZ']; exact hZ) hinf hlw hd
+      (by simp only [mlCx]; rw [hz, hZ']; exact hZ) hinf hlw
+      (by simp only [mlCx]; rw [hW, hY', hZ', hw, hy, hz]; exact hsn) hd
     simp only [mlCx] at this
     rw [hW, hZ', hw, hz] at this
     exact hnt this
@@ -249,6 +254,7 @@ theorem passLoop_opt (P : Params K) (items : List (Item K)) (lineW : K) (hwf : W
                         obtain ⟨hyb, hzb⟩ := afterSums_le P items lineW hwf prev b hpb hleg
                         obtain ⟨hyx, hzx⟩ := afterSums_le P items lineW hwf prev x hpx hlegx
                         apply keep_step P items lineW tol b it rest lb0 n prev hwf.inf hwf.lw hIc.sums hn0 hat hnf hyb hzb
+                          (hwf.snap prev b it hit (fun a ha => legalAt_lt (hprev a ha).2))
                         intro h1
                         obtain ⟨_, _, _, hmono⟩ := pre_mono items hwf.itemsOK b (x - b)
                         have e : b + (x - b) = x := by omega
@@ -257,6 +263,7 @@ theorem passLoop_opt (P : Params K) (items : List (Item K)) (lineW : K) (hwf : W
                             ((pre items x).2.2 - (afterSums P items prev).2.2) := by linarith
                         have h3 := tooLong_of P lineW itx _ (pre items x).2.1 _ _ (afterSums P items prev).2.1 _
                           (hwf.itemsOK itx (List.mem_of_getElem? hix)).1 hzx hwf.inf h2
+                        rw [hwf.snap prev x itx hix (fun a ha => legalAt_lt (hprev a ha).2)] at hr
                         rw [hr] at h3
                         rcases h3 with h3 | ⟨r', h3, hr'⟩
                         · cases h3
